@@ -13,6 +13,8 @@ the C entries raw_name_from_str / set_name go through.
                      three documented refusals
   C14.d read-back    in TypedIterable::name and ParsedPacket::question, for every decoded name: (per-byte map of raw_name_to_str, evaluated
                      for all 256 byte values by E3) followed by (the standard ASCII fold if applied on every path) = ASCII lower-casing
+  C14.e pre-check    a rejection on the text length alone refuses only lengths >= 253 (the longest acceptable text, an absolute name of
+                     wire length 253, has 252 bytes)
 
 Not decided: that the emitted labels are exactly the dot-separated labels of the input (needs the loop invariant
 label_len = i - label_start), the read-back through raw_name_to_str, and the exact set of accepted names.
@@ -147,6 +149,50 @@ def decoder_byte_map(facts):
     return table, None
 
 
+def precheck_rule(ctx, facts, cfg, f):
+    """C14.e: a rejection decided on the text length alone (`name.len() > K` before any byte is looked at) must not exclude an acceptable
+    name: the longest acceptable text is 252 bytes (an absolute name of wire length 253), so the smallest length refused must be >= 253."""
+    rid = 'C14.e'
+    defs = F.single_defs(f)
+    n = 0
+    for bi, b in F.blocks(f):
+        t = b['term']
+        if t['k'] != 'switch':
+            continue
+        e = F.expr(f, defs, t['discr'])
+        if not (e[0] == 'binop' and e[1] in ('Gt', 'Ge', 'Lt', 'Le')):
+            continue
+        def fold(x):
+            while x[0] == 'cast':
+                x = x[2]
+            if x[0] == 'binop' and len(x) > 3:
+                a_, b_ = fold(x[2]), fold(x[3])
+                if a_[0] == 'const' and b_[0] == 'const' and isinstance(a_[1], int) and isinstance(b_[1], int):
+                    v_ = {'Add': a_[1] + b_[1], 'Sub': a_[1] - b_[1], 'Mul': a_[1] * b_[1], 'AddWithOverflow': a_[1] + b_[1], 'SubWithOverflow': a_[1] - b_[1], 'MulWithOverflow': a_[1] * b_[1]}.get(x[1])
+                    if v_ is not None:
+                        return ('const', v_)
+            if x[0] == 'field' and len(x) > 2:
+                return fold(x[2]) if isinstance(x[2], tuple) else x
+            return x
+        l_, r_ = fold(e[2]), fold(e[3])
+
+        def is_len(x):
+            return x[0] == 'call' and x[1].endswith('::len') and x[2] and x[2][0][0] in ('ref', 'load') and x[2][0][1].get('local') == 2
+        if is_len(l_) and r_[0] == 'const' and e[1] in ('Gt', 'Ge'):
+            refused_from = r_[1] + (1 if e[1] == 'Gt' else 0)
+        elif is_len(r_) and l_[0] == 'const' and e[1] in ('Lt', 'Le'):
+            refused_from = l_[1] + (1 if e[1] == 'Lt' else 0)
+        else:
+            continue
+        n += 1
+        ok = refused_from >= TOTAL_MAX
+        ctx.instance(rid, 'text-length pre-check at %s refuses lengths >= %d (the longest acceptable text has %d bytes)' % (t.get('at'), refused_from, TOTAL_MAX - 1), ok=ok, site=t.get('at'))
+        if not ok:
+            ctx.violation(rid, FN, 'precheck-too-strict', 'the conversion refuses every text of %d bytes or more before looking at it; an absolute name of %d text bytes has wire length %d <= %d and must be accepted'
+                          % (refused_from, TOTAL_MAX - 1, TOTAL_MAX, TOTAL_MAX), site=t.get('at'), config=cfg)
+    return n
+
+
 def lowercase_rule(ctx, facts, cfg):
     """C14.d: what a record's name / the question reads back as.  For every name decoded in the reading accessors, the composition
     (per-byte map of the decoder, evaluated for all 256 byte values by E3) followed by (the standard ASCII fold, if it is applied on
@@ -217,6 +263,7 @@ def run(ctx):
             ctx.missing('C14.a', FN)
             return
         lowercase_rule(ctx, facts, cfg)
+        precheck_rule(ctx, facts, cfg, f)
         # portfolio: plain widening first (fast, and enough in builds without overflow checks); if anything is left open, once more
         # with the relaxing join (needed where the overflow checks add bounds the plain widening loses), under a time budget
         for soft in (False, True):
